@@ -311,6 +311,9 @@ func (vc *VC) bytesEqual(st *State, a, b Val) string {
 	rb := vc.name("rb", "(Array Int Int)", Sel(h, b.Reg))
 	r := vc.fresh("beq", "Bool")
 	vc.define(Eq(r, And(Eq(a.Len, b.Len), fmt.Sprintf("(forall ((i Int)) (! (=> (and (<= 0 i) (< i %s)) (= (select %s (+ %s i)) (select %s (+ %s i)))) :pattern ((select %s (+ %s i)))))", a.Len, ra, a.Off, rb, b.Off, ra, a.Off))))
+	// for 16-byte operands (checksums) equality of the bytes is equality of the ids (ids are an injective function of the bytes)
+	vc.needSid()
+	vc.define(Imp(And(Eq(a.Len, "16"), Eq(b.Len, "16")), Eq(r, Eq(app("sid16", h, a.Reg, a.Off), app("sid16", h, b.Reg, b.Off)))))
 	return r
 }
 
